@@ -19,15 +19,24 @@ Theorem C10_polled_on_loop_thread_only : forall s i t, nth_error (ethr s) i = So
   forall j tk tk', nth_error (etasks s) j = Some tk -> nth_error (etasks (wt_step s i t)) j = Some tk' ->
   tk_polls tk' = tk_polls tk /\ tk_delivered tk' = tk_delivered tk /\ tk_script tk' = tk_script tk.
 Proof. exact tasks_only_loop. Qed.
-(* running a dequeued task polls it once; a completing poll marks it Done and delivers its output exactly once *)
+(* running a dequeued task polls it once; a completing poll marks it Done and delivers its output exactly once; a poll during
+   which the task woke itself leaves it scheduled and has it sent again (by the loop thread, through Sender::send) *)
 Theorem C10_result_once : forall l j t, nth_error l j = Some t ->
   match tk_script t with
-  | true :: _ => exists t', nth_error (fst (run_task l j)) j = Some t' /\ tk_state t' = TDone /\ tk_delivered t' = tk_delivered t + 1 /\ tk_polls t' = tk_polls t + 1
-  | _ => exists t', nth_error (fst (run_task l j)) j = Some t' /\ tk_state t' = TIdle /\ tk_delivered t' = tk_delivered t /\ tk_polls t' = tk_polls t + 1
+  | 1 :: _ => exists t', nth_error (fst (fst (run_task l j))) j = Some t' /\ tk_state t' = TDone /\ tk_delivered t' = tk_delivered t + 1 /\ tk_polls t' = tk_polls t + 1
+  | 2 :: _ => exists t', nth_error (fst (fst (run_task l j))) j = Some t' /\ tk_state t' = TSched /\ tk_delivered t' = tk_delivered t /\ tk_polls t' = tk_polls t + 1 /\ snd (run_task l j) = true
+  | _ => exists t', nth_error (fst (fst (run_task l j))) j = Some t' /\ tk_state t' = TIdle /\ tk_delivered t' = tk_delivered t /\ tk_polls t' = tk_polls t + 1
   end.
 Proof. exact run_task_delivers. Qed.
 
 Example C10_nonvacuous :
-  let s := e_run 2%nat [[false; true]; [true]] [ESched 0%nat; ESched 1%nat; EDispatch; EDispatch] [[0%nat]] [0;0;0;0;0;0;0;0;0;0;0;1;1;1;1;0;0;0;0;0;0]%nat in
+  let s := e_run 2%nat [[0; 1]; [1]] [ESched 0%nat; ESched 1%nat; EDispatch; EDispatch] [[0%nat]] [0;0;0;0;0;0;0;0;0;0;0;1;1;1;1;0;0;0;0;0;0]%nat in
   map tk_delivered (etasks s) = [1; 1] /\ eq s = [].
 Proof. vm_compute. split; reflexivity. Qed.
+(* a task that wakes itself while it is polled is sent again by the loop thread and polled again in the same dequeue loop;
+   afterwards the notified flag is clear or a ping is pending, so a later cross-thread wake still gets through *)
+Example C10_selfwake_nonvacuous :
+  let s := e_run 8%nat [[2; 0; 1]] [ESched 0%nat; EDispatch; EDispatch; EDispatch] [[0%nat]]
+                 (repeat 0%nat 14 ++ [1; 1; 1; 1] ++ repeat 0%nat 10)%nat in
+  map tk_polls (etasks s) = [3] /\ map tk_delivered (etasks s) = [1] /\ eq s = [].
+Proof. vm_compute. repeat split; reflexivity. Qed.
